@@ -16,6 +16,7 @@ import (
 type Clause struct {
 	Expr  ast.Expr
 	Src   string
+	Slow  bool   // label ends in '*': checked in the thorough tier only
 	Label string // optional name: `ensures [EnPassant] expr`
 	File  string
 	Line  int
@@ -66,6 +67,8 @@ type FuncContract struct {
 	Timeout   int
 	Bounded   string // non-empty: this unit is a bounded check with the stated bound
 	Establishes []string
+	CallersInline bool     // at call sites the body is inlined (exact state) and the listed ensures are assumed as facts
+	InlineFacts   []string // labels of the ensures clauses assumed after inlining
 	Opaque    []string
 }
 
@@ -87,6 +90,21 @@ type Lemma struct {
 	Timeout int
 	Fact   bool   // justified by an init function's `establishes`, not by an SMT query
 	EstBy  string // function that establishes the fact
+}
+
+// Scenario is a straight-line sequence of calls verified as a unit (e.g. make followed by undo).
+type Scenario struct {
+	Pkg    string
+	Name   string
+	Params []LemmaParam
+	FC     *FuncContract // requires / ensures / props / splits / ghosts / opaque reuse the function-contract fields
+	Steps  []ScenarioStep
+}
+
+type ScenarioStep struct {
+	Bind   string
+	Inline bool
+	Call   Clause
 }
 
 type LemmaParam struct {
@@ -115,18 +133,20 @@ type Contracts struct {
 	Macros  map[string]*Macro
 	Ghosts  map[string]*GhostVar
 	Imports []string // spec files (relative to /verif/spec)
+	ImportsByPkg map[string][]string
 	Externs map[string]*FuncContract // assumed contracts of functions without verified bodies
 	Files   []string
 	Writers map[string][]string // global -> functions allowed to write it
+	Scenarios map[string]*Scenario
 	Scan    []string // assume/trusted/extern occurrences for the evidence report
 }
 
 func newContracts() *Contracts {
 	return &Contracts{Funcs: map[string]*FuncContract{}, Lemmas: map[string]*Lemma{}, Macros: map[string]*Macro{},
-		Ghosts: map[string]*GhostVar{}, Externs: map[string]*FuncContract{}, Writers: map[string][]string{}}
+		Ghosts: map[string]*GhostVar{}, Externs: map[string]*FuncContract{}, Writers: map[string][]string{}, Scenarios: map[string]*Scenario{}, ImportsByPkg: map[string][]string{}}
 }
 
-var kwRe = regexp.MustCompile(`^(import|define|ghost|func|extern|lemma|fact|establishes|writers|props|requires|ensures|modifies|nopanic|exact-conversions|trusted|inline|split|loop|assert|use|hyp|concl|timeout|bounded|opaque)\b`)
+var kwRe = regexp.MustCompile(`^(import|define|ghost|func|extern|lemma|fact|scenario|do|establishes|writers|callers-inline|props|requires|ensures|modifies|nopanic|exact-conversions|trusted|inline|split|loop|assert|use|hyp|concl|timeout|bounded|opaque)\b`)
 
 func parseExprSrc(src string) (ast.Expr, error) {
 	// ==> is written as implies(); allow `a ==> b` at top level as sugar, right-assoc
@@ -202,6 +222,7 @@ func (cs *Contracts) LoadContractFile(path string, pkgShort string) error {
 	var cur *FuncContract
 	var curLemma *Lemma
 	var curLoop *LoopContract
+	var curScenario *Scenario
 	mkClause := func(r rawClause) (Clause, error) {
 		txt := r.text
 		label := ""
@@ -219,12 +240,18 @@ func (cs *Contracts) LoadContractFile(path string, pkgShort string) error {
 		if err != nil {
 			return Clause{}, fmt.Errorf("%s:%d: %v", path, r.line, err)
 		}
-		return Clause{Expr: e, Src: txt, Label: label, File: path, Line: r.line}, nil
+		slow := false
+		if strings.HasSuffix(label, "*") {
+			slow = true
+			label = strings.TrimSuffix(label, "*")
+		}
+		return Clause{Expr: e, Src: txt, Label: label, Slow: slow, File: path, Line: r.line}, nil
 	}
 	for _, r := range raws {
 		switch r.kw {
 		case "import":
 			for _, f := range strings.Fields(r.text) {
+				cs.ImportsByPkg[pkgShort] = append(cs.ImportsByPkg[pkgShort], f)
 				found := false
 				for _, g := range cs.Imports {
 					if g == f {
@@ -287,6 +314,45 @@ func (cs *Contracts) LoadContractFile(path string, pkgShort string) error {
 				}
 				cs.Funcs[cur.Key] = cur
 			}
+		case "scenario":
+			lp := strings.Index(r.text, "(")
+			name := strings.TrimSpace(r.text[:lp])
+			ps := strings.TrimSuffix(strings.TrimSpace(r.text[lp+1:]), ")")
+			sc := &Scenario{Pkg: pkgShort, Name: name}
+			for _, p := range strings.Split(ps, ",") {
+				f := strings.Fields(p)
+				if len(f) == 2 {
+					sc.Params = append(sc.Params, LemmaParam{f[0], f[1]})
+				}
+			}
+			cur = &FuncContract{Pkg: pkgShort, Loops: map[int]*LoopContract{}, File: path, Line: r.line, Key: "scenario " + pkgShort + "." + name}
+			sc.FC = cur
+			curScenario = sc
+			curLemma = nil
+			cs.Scenarios[pkgShort+"."+name] = sc
+		case "do":
+			if curScenario == nil || cur != curScenario.FC {
+				return fmt.Errorf("%s:%d: do outside scenario", path, r.line)
+			}
+			txt := r.text
+			st := ScenarioStep{}
+			if i := strings.Index(txt, ":="); i >= 0 {
+				st.Bind = strings.TrimSpace(txt[:i])
+				txt = strings.TrimSpace(txt[i+2:])
+			}
+			if strings.HasPrefix(txt, "inline ") {
+				st.Inline = true
+				txt = strings.TrimSpace(txt[7:])
+			}
+			c, err := mkClause(rawClause{"do", txt, r.line})
+			if err != nil {
+				return err
+			}
+			st.Call = c
+			curScenario.Steps = append(curScenario.Steps, st)
+		case "callers-inline":
+			cur.CallersInline = true
+			cur.InlineFacts = strings.Fields(r.text)
 		case "establishes":
 			if cur == nil {
 				return fmt.Errorf("%s:%d: establishes outside func", path, r.line)
